@@ -47,6 +47,10 @@ pub fn pool() -> Vec<Op> {
     let mut p = crate::c04::pool();
     p.push(Op::ins(1, ts_min(200, 0, 1)));
     p.push(Op::ins(2, ts_min(205, 0, 1)));
+    // put_many / del_many stamp every document of a call with ONE clock reading: the same
+    // stamp on two different ids is something the public API really produces
+    p.push(Op::ins(2, ts_min(200, 0, 1)));
+    p.push(Op::del(2, ts_min(50, 0, 1)));
     p
 }
 
